@@ -111,6 +111,8 @@ struct State {
     /// delay bounding: every departure from the default (canonical) choice costs one unit, also at
     /// points where the running thread has finished or blocked
     delay: bool,
+    /// are reference-count operations of the shim's `Arc` scheduling points in this execution?
+    arc_points: bool,
     trace_hash: u64,
     trace: Vec<String>,
     keep_trace: bool,
@@ -335,6 +337,17 @@ pub static SCHED: Sched = Sched;
 impl Runtime for Sched {
     fn point(&self, op: Op) -> Go {
         let Some((ex, me)) = cur() else { return Go::Free };
+        if matches!(op.kind, OpKind::ArcClone | OpKind::ArcDrop | OpKind::ArcCount) {
+            // reference counts are scheduling points only in executions that ask for it; elsewhere
+            // the operation is performed at once (and still recorded for happens-before)
+            let st = lock(&ex);
+            if st.aborting {
+                return Go::Free;
+            }
+            if !st.arc_points {
+                return Go::Proceed;
+            }
+        }
         park(
             &ex,
             me,
@@ -552,7 +565,7 @@ fn loc_str(l: &Location<'_>) -> String {
 fn hb_done(st: &mut State, me: Tid, d: &Done) {
     let hb = &mut st.hb;
     match d.kind {
-        OpKind::AtomicLoad => {
+        OpKind::AtomicLoad | OpKind::ArcCount => {
             if is_acq(d.order) {
                 if let Some(r) = hb.rel.get(&d.obj).cloned() {
                     join_into(&mut hb.clocks[me], &r);
@@ -565,7 +578,7 @@ fn hb_done(st: &mut State, me: Tid, d: &Done) {
             hb.rel.insert(d.obj, c);
             tick(hb, me);
         }
-        OpKind::AtomicRmw | OpKind::AtomicCas => {
+        OpKind::AtomicRmw | OpKind::AtomicCas | OpKind::ArcClone | OpKind::ArcDrop => {
             if is_acq(d.order) {
                 if let Some(r) = hb.rel.get(&d.obj).cloned() {
                     join_into(&mut hb.clocks[me], &r);
@@ -843,6 +856,7 @@ pub struct RunCfg {
     pub max_steps: usize,
     pub keep_trace: bool,
     pub delay: bool,
+    pub arc_points: bool,
 }
 
 /// Record a panic message for the current execution (called by the panic hook).
@@ -890,6 +904,7 @@ pub fn run_one<V>(cfg: RunCfg, body: Box<dyn FnOnce() + Send + 'static>, judge: 
             steps: 0,
             max_steps: cfg.max_steps,
             delay: cfg.delay,
+            arc_points: cfg.arc_points,
             trace_hash: 0xcbf29ce484222325,
             trace: vec![],
             keep_trace: cfg.keep_trace,
